@@ -63,7 +63,8 @@ CHECKS = {
          "linear in the unread bytes suffices for every type without sequences of zero-width elements (recursive "
          "declarations included), and without that restriction fuel_bound + 2^31 suffices (the count governs it: F14). SIZE "
          "of the result (SizeProofs): false with de-duplicated strings (C05_size_refuted: known finding F30), linear in the "
-         "bytes consumed for every type and environment without them (C05_size_linear). Allocator behaviour and stack depth "
+         "bytes consumed for every type and environment without them (C05_size_linear), at most quadratic in the input for every "
+         "type (C05_size_quadratic). Allocator behaviour and stack depth "
          "are measured, not proved. Tie: malformed streams (exhaustive short strings, "
          "structure-aware mutants, random) in release and debug builds with catch_unwind, watchdog, RLIMIT_AS, counting "
          "allocator.",
